@@ -364,10 +364,21 @@ Definition kern1 (a b : point) : Z :=
 Definition kern2 (a b : point) : Z :=
   if forallb (fun xy => fst xy =? snd xy) (combine a b) then scale else 0.
 
-Definition kern (kind : Z) : point -> point -> Z :=
-  match kind with
-  | 0 => kern0
-  | 1 => kern1
+(* the harness kernels carry a runtime parameter (their state, handed to the sketch through the public constructor):
+   the radius r beyond which kind 0 is exactly 0 / at which kind 1 saturates.  kern0 = kern0r 20, kern1 = kern1r 20. *)
+Definition kern0r (r : Z) (a b : point) : Z :=
+  let d := l1 a b in if d <=? r then 2 ^ (20 - d) else 0.
+Definition kern1r (r : Z) (a b : point) : Z :=
+  let d := Z.min (l1 a b) r in
+  let s := match a with x :: _ => if Z.odd x then -1 else 1 | [] => 1 end in
+  s * 2 ^ (20 - d).
+
+(* kernel code of a register: kind = code mod 4, parameter = code / 4, radius = 20 - parameter (0 <= parameter <= 15) *)
+Definition kern (code : Z) : point -> point -> Z :=
+  let r := 20 - code / 4 in
+  match code mod 4 with
+  | 0 => kern0r r
+  | 1 => kern1r r
   | _ => kern2
   end.
 
